@@ -167,6 +167,55 @@ def helper_reports(prog, hf, vname, pix):
     return 'ok'
 
 
+def check_k_argument(rep, prog, main):
+    """R11g: the k handed to the approximate entry points is the k the user asked for or at least never falls below 1: the library throws for
+    k < 1 and the demo does not catch it (abort, status 134, no weight printed).  Every re-assignment of the variable after it was read
+    from the option is evaluated in its C++ arithmetic over small graphs (0..5 vertices, a valid file can declare any of these) and requested values."""
+    what = 'the k passed to the approximate algorithms is never reduced below 1 for a valid file'
+    calls = [c for c in main.walk() if c.k == 'CallExpr' and c.callee and c.callee['g'].startswith('parmcb::approx_mcb_sva_') and len(c.args()) >= 3]
+    if not calls:
+        return 0
+    kv = ex.var_of(calls[0].args()[2])
+    if kv is None:
+        rep.undecided('R11g', calls[0], main, what, 'k argument `%s` is not a variable' % calls[0].args()[2].text(30))
+        return 1
+    gv, _rd = graph_var(main)
+    cfg = main.cfg
+    defs = ex.assignments_to(main, kv)
+    from_opt = [d for (d, rhs) in defs if rhs is not None and common.option_atom(rhs) == ('opt', 'k')]
+    later = [(d, rhs) for (d, rhs) in defs if d.k != 'VarDecl' and d not in from_opt and any(cfg.reaches(d, c) for c in calls)]
+    bad = und = None
+    for (d, rhs) in later:
+        if rhs is None:
+            und = d
+            continue
+        for req in (2, 3, 7, 1000):
+            for n_ in range(0, 6):
+                def bind(x_, req=req, n_=n_):
+                    if ex.var_of(x_) == kv:
+                        return req
+                    if x_.k == 'CallExpr' and x_.callee and x_.callee['name'] in ('num_vertices', 'num_edges') and x_.args() and ex.var_of(x_.args()[0]) == gv:
+                        return n_ if x_.callee['name'] == 'num_vertices' else max(0, n_ - 1)
+                    return None
+                try:
+                    val = ex.ceval(rhs, bind)
+                except ex.Unknown:
+                    und = d
+                    break
+                if val < 1 and bad is None:
+                    bad = (d, req, n_, val)
+            if und is d:
+                break
+    if bad:
+        rep.violation('R11g', bad[0], main, what, '`%s` (line %d) makes k = %d for --k=%d on a file with %d vertices: the library rejects k < 1 with an exception the demo does not catch '
+                      '(abort instead of exit status 0 and a weight)' % (bad[0].text(50), bad[0].line, bad[3], bad[1], bad[2]), key='R11g|%s|k' % os.path.basename(prog.tu))
+    elif und is not None:
+        rep.undecided('R11g', und, main, what, '`%s` re-assigns k in a way that is not evaluable' % und.text(50))
+    else:
+        rep.ok('R11g', calls[0], main, what, '%d call(s); k is the option value' % len(calls))
+    return 1
+
+
 PARALLEL_OK = ('boost::vecS', 'boost::listS', 'boost::slistS', 'boost::multisetS', 'boost::hash_multisetS')
 
 
@@ -481,6 +530,7 @@ def run(rep, tier):
     rep.rule('R11d', '--cores=0 ("all cores", a valid option value) never reaches the TBB knob as 0', floor=2)
     rep.rule('R04c', 'the MPI demo computes the same basis for every process count: the rank slices of the library functions it instantiates are exact partitions (shared with C04)', floor=0)
     rep.rule('R07l', 'the demo programs (and the library code they instantiate) do not divide by a collection size that is zero for a valid file (a forest): SIGFPE is not exit status 0', floor=0)
+    rep.rule('R11g', 'the approximate demo never lowers k below 1 for a valid file', floor=1)
     rep.rule('R11f', 'the demo graph type keeps parallel edges, so that has_multiple_edges sees what the file says', floor=4)
     rep.rule('R10a', 'the reader cuts the line buffer only at a line terminator (the weight the gate tests is the weight in the file)', floor=0)
     rep.rule('R10b', 'the weight field of every edge line is parsed in full or defaults to 1 only when absent', floor=0)
@@ -514,6 +564,7 @@ def run(rep, tier):
             m = common.driver_body(prog, m)
             check_main(rep, prog, m, algo)
             check_graph_type(rep, prog, m)
+            check_k_argument(rep, prog, m)
             c20.knob_zero(rep, prog, m, 'R11d')
     # positive example: the pre-fix MPI shape and a gate that falls through
     pos = os.path.join(env.WITNESS, 'positive', 'c11_rank0_gate.cc')
